@@ -233,7 +233,8 @@ class ExcelCompiler:
         if not is_json:
             with open(new_filename, 'w') as f:
                 ymlo = YAML()
-                ymlo.width = 120
+                # (folding a long scalar at a run of blanks loses one of them)
+                ymlo.width = 2 ** 31
                 ymlo.dump(extra_data, f)
         else:
             with open(new_filename, 'w') as f:
